@@ -10,6 +10,7 @@ REALS = ("ValueType is modelled by exact reals (type R): every 'equals its defin
          "the size and growth of IEEE rounding error is NOT decided by this check")
 
 UNITS = {
+    "ind_rsi": dict(tpl="ind_rsi.rs.tpl", doc="indicators::RelativeStrengthIndex (generic in the moving-average constructor)"),
     "ind_channels": dict(tpl="ind_channels.rs.tpl", doc="indicators::{DonchianChannel, PriceChannelStrategy, BollingerBands}"),
     "ind_macd": dict(tpl="ind_macd.rs.tpl", doc="indicators::MACD (generic in the moving-average constructor)"),
     "indicator_base": dict(tpl="indicator_base.rs.tpl", doc="Action (integer part), CrossAbove/CrossUnder/Cross over reals"),
@@ -200,6 +201,38 @@ PROPS["C14"] = dict(
            "and the current one is non-negative' (mirrored; Cross is the signed combination; swapping the series negates: lemma cross_swap_negates), and "
            "bit-precisely by loop-free Kani harnesses over all finite f64 inputs (complete). The reversal detectors are NOT under contract yet."),
     assumptions=[REALS + " (Verus part); the Kani part is bit-precise over finite inputs", "Upper/Lower/ReversalSignal are not covered by this check yet"],
+)
+
+INDICATOR_UNITS = ["ind_macd", "ind_channels", "ind_rsi"]
+IND_DEPS = ["indicator_base", "ohlcv", "window", "sma", "st_dev", "highest_lowest", "highest_lowest_index", "ema", "wma"]
+COVERED_INDICATORS = "MACD, DonchianChannel, PriceChannelStrategy, BollingerBands, RelativeStrengthIndex"
+
+PROPS["C05"] = dict(
+    verus=INDICATOR_UNITS + IND_DEPS,
+    claim=("For the indicators under contract (" + COVERED_INDICATORS + "; generic ones for an arbitrary moving-average constructor M) `next` is verified "
+           "to return, as its raw values, the documented formula written over the component step relations (e.g. MACD: MA1(src) - MA2(src) and its "
+           "signal line MA3(MACD); Bollinger: SMA +- sigma*StDev; Donchian: highest high / lowest low / midpoint), and `init` to seed each component "
+           "as documented; with the component contracts of C02-C04 this is the formula on the candle history, by induction over next."),
+    assumptions=[REALS, "only the indicators listed in the claim are covered; the other shipped indicators are not under contract",
+                 "IndicatorResult::new is used through an assumed contract (prefix copy, lengths min(4, n))",
+                 "std trait impls (IndicatorConfig/IndicatorInstance) are checked as inherent fns with the same bodies (R12)"],
+)
+PROPS["C06"] = dict(
+    verus=INDICATOR_UNITS + ["indicator_base", "ohlcv"],
+    claim=("Same units as C05, signal half: for the indicators under contract each signal slot is verified to equal its documented rule over the step's own "
+           "values and the Cross/Action contracts (MACD: crossing of the signal line / of zero; Donchian and PriceChannel: new extreme / band touch; "
+           "Bollinger: position inside the band; RSI: entering/leaving the zones). Comparisons are exact in the real model."),
+    assumptions=[REALS + "; steps where the deciding quantity is within rounding of its threshold are therefore not distinguished",
+                 "only " + COVERED_INDICATORS + " are covered", "Action::from(f64) appears as the uninterpreted action_of_real (its bit-level behaviour is C16)"],
+)
+PROPS["C12"] = dict(
+    verus=INDICATOR_UNITS + ["ohlcv", "candle_methods", "derived_window", "st_dev", "ema", "indicator_base"],
+    claim=("Ideal-arithmetic ranges: proved as extra postconditions — CLV in [-1,1] for low<=close<=high; tr_close and TR >= 0 for high >= low; StDev and "
+           "LinearVolatility >= 0; Vidya's CMO factor in [0,1] and its guarded quotient well defined; TSI's guard implies a positive denominator; "
+           "RSI in [0,1] for averaging kinds that cannot overshoot (with its debug assertion discharged); Bollinger upper >= middle >= lower; "
+           "Donchian and PriceChannel contain the highs/lows they are built from."),
+    assumptions=[REALS + ": residue after a flat stretch and non-finite outputs are float behaviour and are NOT decided",
+                 "Aroon, MFI, Stochastic, CMO, CMF, SMI, Keltner, Envelopes, ParabolicSAR, MeanAbsDev are not covered by this check yet"],
 )
 
 NOT_BUILT = {}
